@@ -256,6 +256,13 @@ func (e *mvccEntry) Get(ts uint64, isoLevel kvrpcpb.IsolationLevel, resolvedLock
 	}
 	for _, v := range e.values {
 		if v.commitTS <= ts && v.valueType != typeRollback && v.valueType != typeLock {
+			if v.valueType == typeDelete {
+				return nil, nil
+			}
+			if v.value == nil {
+				// a Put of an empty value is present (non-nil), unlike a deleted or absent key
+				return []byte{}, nil
+			}
 			return v.value, nil
 		}
 	}
